@@ -63,3 +63,26 @@ impl Known {
         &self.entries
     }
 }
+
+/// True if `key` is listed as an open finding of ANY property. Used where a finding of one property would only
+/// add noise to the histories of another one (e.g. the C10 zombie-merge finding in C01/C02/C05/C11 histories).
+pub fn open_anywhere(key: &str) -> bool {
+    static ALL: std::sync::OnceLock<Vec<String>> = std::sync::OnceLock::new();
+    let all = ALL.get_or_init(|| {
+        let root = std::env::var("VERIF_ROOT").unwrap_or_else(|_| "/verif".to_string());
+        let mut keys = vec![];
+        if let Ok(text) = std::fs::read_to_string(std::path::Path::new(&root).join("KNOWN_FINDINGS.txt")) {
+            for line in text.lines() {
+                if let Some(rest) = line.trim().strip_prefix("known:") {
+                    for tok in rest.split_whitespace() {
+                        if let Some(v) = tok.strip_prefix("key=") {
+                            keys.push(v.to_string());
+                        }
+                    }
+                }
+            }
+        }
+        keys
+    });
+    all.iter().any(|k| k == key)
+}
